@@ -7,9 +7,9 @@ import (
 	"math/rand/v2"
 	"os"
 	"runtime"
-	"sync/atomic"
 	"strings"
 	"sync"
+	"sync/atomic"
 	"testing"
 	"time"
 	"unicode/utf8"
@@ -36,19 +36,19 @@ type outMsg struct {
 }
 
 type c01Case struct {
-	Transport  string     `json:"transport"`
-	Rev        int        `json:"rev"`
-	B64        bool       `json:"b64"`
-	JSONP      bool       `json:"jsonp"`
-	AcceptEnc  string     `json:"accept_encoding"`
-	Threshold  int        `json:"compress_threshold"`
-	PMD        int        `json:"permessage_deflate_threshold"` // -1 off
-	Upgrade    string     `json:"upgrade"`                       // "" | websocket | webtransport
-	UpgradeAt  int        `json:"upgrade_at_ms"`
-	PingMs     int        `json:"ping_interval_ms"`
-	Senders    [][]outMsg `json:"senders"`
-	GateCheck  bool       `json:"gate_check_vs_flush"`
-	Seed       string     `json:"seed"`
+	Transport string     `json:"transport"`
+	Rev       int        `json:"rev"`
+	B64       bool       `json:"b64"`
+	JSONP     bool       `json:"jsonp"`
+	AcceptEnc string     `json:"accept_encoding"`
+	Threshold int        `json:"compress_threshold"`
+	PMD       int        `json:"permessage_deflate_threshold"` // -1 off
+	Upgrade   string     `json:"upgrade"`                      // "" | websocket | webtransport
+	UpgradeAt int        `json:"upgrade_at_ms"`
+	PingMs    int        `json:"ping_interval_ms"`
+	Senders   [][]outMsg `json:"senders"`
+	GateCheck bool       `json:"gate_check_vs_flush"`
+	Seed      string     `json:"seed"`
 }
 
 var c01Sizes = []int{0, 1, 2, 5, 20, 125, 126, 127, 300, 1023, 1024, 1025, 4095, 4096, 4097, 4100, 4106, 8191, 8192, 8200}
